@@ -95,7 +95,8 @@ class World:
     # 2: no bounds at all (the first solve is box-free, boxes appear only through later edits)
     ST0 = ['[("x", (Some (QQ 0 1), Some (QQ 4 1)))]',
            '[("x", (Some (QQ 0 1), Some (QQ 4 1))); ("y", (Some (QQ (-1) 1), Some (QQ 3 1)))]',
-           '[]']
+           '[]',
+           '[("x", (None, Some (QQ 4 1)))]']         # 3: ONE finite bound in the whole model: removing it leaves every variable free
 
     def __init__(self, variant=0):
         from optyx import Variable
@@ -106,6 +107,9 @@ class World:
         elif variant == 1:
             self.x = Variable("x", lb=0.0, ub=4.0)
             self.y = Variable("y", lb=-1.0, ub=3.0)
+        elif variant == 3:
+            self.x = Variable("x", ub=4.0)
+            self.y = Variable("y")
         else:
             self.x = Variable("x")
             self.y = Variable("y")
@@ -114,14 +118,14 @@ class World:
         # ([a, y] -> [y, z] shifts y's column), and a constraint that introduces a variable
         self.a, self.z = Variable("a"), Variable("z")
         a, z = self.a, self.z
-        self.objs = [x + 2 * y, x ** 2 + y ** 2, (a - 3) ** 2 + y ** 2, y ** 2 + (z + 2) ** 2, 2 * a + y]
+        self.objs = [x + 2 * y, x ** 2 + y ** 2, (a - 3) ** 2 + y ** 2, y ** 2 + (z + 2) ** 2, 2 * a + y, (y - 1) ** 2 + 4, 3 * y + 1]
         self.cons = [x + y >= 1, x ** 2 + y <= 3, x >= 0.5, y <= 2, z + x >= 0.125, y >= 1.125]
         self.ser = ser.Ser()
         self.obj_terms = [self.ser.expr(o) for o in self.objs]
         self.con_terms = [f"({self.ser.expr(c.expr)}, {SENSE[c.sense]})" for c in self.cons]
 
 
-LETTERS = ["min0", "min1", "max0", "max1", "min2", "min3", "max3", "min4", "subj0", "subj1", "subjL", "subjLz", "subj5", "subjBad",
+LETTERS = ["min0", "min1", "max0", "max1", "min2", "min3", "max3", "min4", "min5", "max6", "subj0", "subj1", "subjL", "subjLz", "subj5", "subjBad",
            "minBad", "maxBad", "ubx", "lby", "ubxN", "uby", "uba0", "lbz0", "read",
            "s:auto", "s:SLSQP", "s:trust-constr", "s:L-BFGS-B", "s:Nelder-Mead", "s:Powell", "s:linprog", "s:highs-ds"]
 NO_MODEL_OP = {"subjBad", "minBad", "maxBad"}        # rejected calls: the problem must be exactly as before (no model operation)
@@ -413,16 +417,23 @@ def run(rep: vk.Report):
     # from a linear, a non-linear and a different-variable-set starting objective
     edits = [L for L in LETTERS if not L.startswith("s:")]
     solves = [L for L in LETTERS if L.startswith("s:")]
+    forced_world = {}
+    bound_edits = {"ubx", "lby", "ubxN", "uby", "uba0", "lbz0"}
     for setup in ("min0", "max1", "min3"):
         for sa, ed, sb in itertools.product(solves, edits, solves):
-            seqs.append((setup, sa, ed, sb))
+            if ed in bound_edits:
+                for wv in range(4):                      # a bound edit between two solves: in every world (what "all free" means differs)
+                    forced_world[len(seqs)] = wv
+                    seqs.append((setup, sa, ed, sb))
+            else:
+                seqs.append((setup, sa, ed, sb))
     n_long = 400 if rep.tier == "quick" else 20000
     for _ in range(n_long):
         seqs.append(tuple(rng.choice(LETTERS) for _ in range(rng.randint(4, 8))))
     cases = Cases("histories", IMPORTS, CASE_TYPE, CHECKER, defs=DEFS)
     bad_reports = 0
     for k, s in enumerate(seqs):
-        variant = k % 3
+        variant = forced_world.get(k, k % 4)
         case, pyseen = run_sequence(s, variant)
         for st_ in pyseen:
             if st_.get("letter") == "subjBad" and bad_reports < 3:
@@ -465,7 +476,7 @@ def run(rep: vk.Report):
     for s in rng.sample(seqs, min(len(seqs), 90 if rep.tier == "quick" else 3000)):
         if any(L.startswith("s:") for L in s):
             searched += 1
-            wit = real_vs_fresh(list(s), searched % 3)
+            wit = real_vs_fresh(list(s), searched % 4)
             if wit:
                 rep.violation({"kind": "real-solver", "obligation": "solve = fresh problem solve", "witness": wit}, concrete=True)
     cov = rep.coverage
